@@ -218,7 +218,9 @@ def mk_fs(A, name, r, copy=True):
 # ------------------------------------------------------------------------------------------------------------------
 # model functions (module level: their identity is stable over a run)
 
-def _grid(pts):
+def _grid(pts, kind=None):
+    if kind == 'lin':
+        return np.linspace(0, 1, pts)
     return Numerics.default_grid(pts)
 
 def model_m3(params, ns, pts):
@@ -263,6 +265,8 @@ MODELS = {
     'm3': model_m3, 'm4': model_m4, 'm5': model_m5, 'two_epoch_theta': model_two_epoch_theta,
 }
 
+MODELS_EX = {k: Numerics.make_extrap_func(v) for k, v in MODELS.items()}      # made once, like func_ex in a user script
+
 def demes_graph(kind):
     import demes
     if kind == 'reorder4':
@@ -305,7 +309,7 @@ def b_dd(A, s):
 
 def b_from_phi(A, s):
     d, pts = s['d'], s['pts']
-    xx0 = _grid(pts)
+    xx0 = _grid(pts, s.get('grid'))
     phi = A.arr('phi', mk_phi(s['phi'], pts, d))
     xxs = [A.arr('xx%d' % i, xx0) for i in range(d)]
     A.keep('xxs', xxs)
@@ -321,7 +325,7 @@ INTEG = {1: 'one_pop', 2: 'two_pops', 3: 'three_pops', 4: 'four_pops', 5: 'five_
 def b_integ(A, s):
     d, pts = s['d'], s['pts']
     phi = A.arr('phi', mk_phi(s['phi'], pts, d), alias=True)
-    xx = A.arr('xx', _grid(pts))
+    xx = A.arr('xx', _grid(pts, s.get('grid')))
     kw = {}
     nonconst = s.get('nonconst', False)
     def par(v, k):
@@ -459,8 +463,7 @@ def b_opt(A, s):
         data = mk_fs(A, 'data', s['data'])
         lb = A.keep('lower_bound', copy.deepcopy(s.get('lower'))); ub = A.keep('upper_bound', copy.deepcopy(s.get('upper')))
         fixed = A.keep('fixed_params', copy.deepcopy(s.get('fixed')))
-        model = MODELS[s['kind']]
-        fe = Numerics.make_extrap_func(model)
+        fe = MODELS_EX[s['kind']]
         pts = A.keep('pts', list(s['pts']))
         return lambda: Inference._object_func(params, data, fe, pts, lower_bound=lb, upper_bound=ub, verbose=0,
                                               multinom=s.get('multinom', True), fixed_params=fixed,
@@ -478,8 +481,7 @@ def b_opt(A, s):
     raise ValueError(f)
 
 def b_gim(A, s):
-    model = MODELS[s['kind']]
-    fe = model
+    fe = MODELS_EX[s['kind']]
     p0 = A.keep('p0', list(s['p0']))
     data = mk_fs(A, 'data', s['data'])
     boots = [mk_fs(A, 'boot%d' % i, b) for i, b in enumerate(s.get('boots', []))]
@@ -487,6 +489,13 @@ def b_gim(A, s):
     pts = A.keep('pts', list(s['pts']))
     f = s['f']
     kw = {'multinom': s.get('multinom', True), 'eps': s.get('eps', 0.01)}
+    if s.get('seq'):
+        # a user script: the same analysis for a list of parameter vectors, one call after the other
+        p0s = A.keep('p0_list', copy.deepcopy(s['p0_list']))
+        nested = A.keep('nested_indices', list(s['nested']))
+        def run(p0):
+            return Godambe.LRT_adjust(fe, pts, boots, p0, data, nested, **kw)
+        return lambda: [run(p0) for p0 in p0s]
     if f == 'FIM':
         return lambda: Godambe.FIM_uncert(fe, pts, p0, data, log=s.get('log', False), **kw)
     if f == 'GIM':
@@ -496,13 +505,35 @@ def b_gim(A, s):
         return lambda: Godambe.LRT_adjust(fe, pts, boots, p0, data, nested, **kw)
     raise ValueError(f)
 
+PATCHED = []
+
 def b_demes(A, s):
     sd = A.keep('sampled_demes', list(s['sampled'])); sz = A.keep('sample_sizes', list(s['sizes'])); pts = A.keep('pts', list(s['pts']))
     if 'yaml' in s:
         g = os.path.join(REPO, 'tests', 'demes', s['yaml'])
     else:
         g = demes_graph(s['builder'])
-    return lambda: Spectrum.from_demes(g, sampled_demes=sd, sample_sizes=sz, pts=pts)
+    if not s.get('contig_patch'):
+        return lambda: Spectrum.from_demes(g, sampled_demes=sd, sample_sizes=sz, pts=pts)
+    def thunk():
+        # attribution only: the same call with every non-contiguous phi made contiguous before it reaches an integrator
+        saved = {}
+        def mk(name, orig):
+            def w(phi, *a, **k):
+                if not phi.flags['C_CONTIGUOUS']:
+                    PATCHED.append(name)
+                    phi = np.ascontiguousarray(phi)
+                return orig(phi, *a, **k)
+            return w
+        for name in INTEG.values():
+            saved[name] = getattr(Integration, name)
+            setattr(Integration, name, mk(name, saved[name]))
+        try:
+            return Spectrum.from_demes(g, sampled_demes=sd, sample_sizes=sz, pts=pts)
+        finally:
+            for name, f in saved.items():
+                setattr(Integration, name, f)
+    return thunk
 
 BUILDERS = {'sp': b_sp, 'dd': b_dd, 'from_phi': b_from_phi, 'integ': b_integ, 'pm': b_pm, 'model': b_model, 'lp': b_lp,
             'num': b_num, 'll': b_ll, 'opt': b_opt, 'gim': b_gim, 'demes': b_demes}
@@ -663,6 +694,10 @@ def evaluate(spec, layout=None, full=False):
                 al.append(n)
     rec['aliased'] = al
     rec['result_is_arg'] = [n for n in A.alias_check if res is A.frozen[n]]
+    if spec.get('seq') and isinstance(res, list):
+        rec['elements'] = [digest(canon(x)) for x in res]
+    if spec.get('contig_patch'):
+        rec['patched'] = sorted(set(PATCHED)); del PATCHED[:]
     if full:
         rec['canon'] = c
     return rec, c, A
@@ -737,10 +772,61 @@ def mode_diagnose(p):
     return res
 
 
+def dispatch(p):
+    mode = p.get('mode', 'eval')
+    return {'eval': mode_eval, 'layout': mode_layout, 'diagnose': mode_diagnose}[mode](p)
+
+
+def mode_batch(p):
+    """every job in its own fork of THIS process, which has imported dadi and done nothing else: each child starts from
+    the state of a freshly started interpreter (empty caches, untouched module globals); `par` children at a time"""
+    import select
+    jobs = p['jobs']; par = max(1, int(p.get('par', 4)))
+    results = [None] * len(jobs)
+    running = {}
+    nxt = 0
+    sys.stdout.flush()
+    while nxt < len(jobs) or running:
+        while nxt < len(jobs) and len(running) < par:
+            r, w = os.pipe()
+            pid = os.fork()
+            if pid == 0:
+                os.close(r)
+                try:
+                    data = json.dumps(dispatch(jobs[nxt])).encode()
+                except BaseException as e:
+                    import traceback
+                    data = json.dumps({'crash': traceback.format_exc()[-1500:]}).encode()
+                try:
+                    with os.fdopen(w, 'wb') as f:
+                        f.write(data)
+                finally:
+                    os._exit(0)
+            os.close(w)
+            running[r] = (nxt, pid, [])
+            nxt += 1
+        ready, _, _ = select.select(list(running), [], [], 120)
+        for fd in ready:
+            chunk = os.read(fd, 1 << 20)
+            if chunk:
+                running[fd][2].append(chunk)
+            else:
+                idx, pid, chunks = running.pop(fd)
+                os.close(fd)
+                _, status = os.waitpid(pid, 0)
+                if chunks:
+                    results[idx] = json.loads(b''.join(chunks))
+                else:
+                    results[idx] = {'crash': 'child process died without output (wait status %d)' % status}
+    return {'results': results}
+
+
 def main():
     p = json.load(sys.stdin)
-    mode = p.get('mode', 'eval')
-    res = {'eval': mode_eval, 'layout': mode_layout, 'diagnose': mode_diagnose}[mode](p)
+    if p.get('mode') == 'batch':
+        res = mode_batch(p)
+    else:
+        res = dispatch(p)
     print(json.dumps(res))
 
 main()
